@@ -2086,11 +2086,22 @@ static int parse_table(struct scanner_s *scanner, cif_value_tp **tablep) {
         /* scan the value */
 
         /* obtain a value object into which to scan the value, to avoid copying the scanned value after the fact */
-        if ((key != NULL)
-                && (((result = cif_value_set_item_by_key(table, key, NULL)) != CIF_OK) 
-                        || ((result = cif_value_get_item_by_key(table, key, &value)) != CIF_OK))) {
-            free(key);
-            break;
+        if (key != NULL) {
+            result = cif_value_set_item_by_key(table, key, NULL);
+            if (result == CIF_INVALID_INDEX) {
+                /* error: the key cannot be a table index (it contains characters that CIF does not allow) */
+                result = scanner->error_callback(CIF_INVALID_INDEX, scanner->line, scanner->column,
+                        TVALUE_START(scanner), 0, scanner->user_data);
+                free(key);
+                key = NULL;
+                if (result != CIF_OK) {
+                    goto table_end;
+                }
+                /* recover by dropping the entry: its value is parsed as for a NULL key, and discarded */
+            } else if ((result != CIF_OK) || ((result = cif_value_get_item_by_key(table, key, &value)) != CIF_OK)) {
+                free(key);
+                break;
+            }
         }
 
         if ((result = next_token(scanner)) == CIF_OK) {
